@@ -902,6 +902,257 @@ theorem rotate2_twice_differs :
 
 end machine
 
+/-! ## history purity of one object: results are a function of the settings in force -/
+section history
+variable {α : Type} [Field α] [LinearOrder α] [IsStrictOrderedRing α] [Trans α]
+
+theorem hstep_coherent (ev : Eval α) (inv6 : M6 α → Box6 α) (inv4 : T4 α → T4 α)
+    (simple : State α → V3 α → α) (dq : Quad α) (h : HState α) (op : HOp α)
+    (hc : Coherent ev inv6 h.st) : Coherent ev inv6 (hstep ev inv6 inv4 simple dq h op).1.st := by
+  cases op with
+  | setter o => exact step_coherent ev inv6 h.st o hc
+  | setQuad q => exact hc
+  | compute r => exact hc
+
+theorem hrun_coherent (ev : Eval α) (inv6 : M6 α → Box6 α) (inv4 : T4 α → T4 α)
+    (simple : State α → V3 α → α) (dq : Quad α) (ops : List (HOp α)) (h : HState α)
+    (hc : Coherent ev inv6 h.st) : Coherent ev inv6 (hrun ev inv6 inv4 simple dq h ops).1.st := by
+  induction ops generalizing h with
+  | nil => exact hc
+  | cons op ops ih =>
+    simp only [hrun]
+    exact ih _ (hstep_coherent ev inv6 inv4 simple dq h op hc)
+
+/-- a `compute` leaves the object as it was (it is an observation) -/
+theorem compute_keeps_state (ev : Eval α) (inv6 : M6 α → Box6 α) (inv4 : T4 α → T4 α)
+    (simple : State α → V3 α → α) (dq : Quad α) (h : HState α) (r : V3 α) :
+    (hstep ev inv6 inv4 simple dq h (.compute r)).1 = h := rfl
+
+/-- the result of `compute` reads the parameters, the description, the eigenstrain, the constant and
+the quadrature of the object only -/
+theorem computeOf_congr (ev : Eval α) (inv4 : T4 α → T4 α) (simple : State α → V3 α → α)
+    (h1 h2 : HState α) (r : V3 α) (hst : h1.st = h2.st) (hq : h1.quad = h2.quad) :
+    computeOf ev inv4 simple h1 r = computeOf ev inv4 simple h2 r := by
+  cases h1; cases h2; simp only at hst hq; subst hst; subst hq; rfl
+
+/-- **fresh-object equivalence**: two histories of calls (any initial shapes, any lengths, setters of every
+kind in any order and any number of times, quadrature setters, any number of `compute` calls in
+between) that end with the same settings — rotations, unrotated tensors, applied stress as supplied,
+eigenstrain, constant, description kind, quadrature — answer the next `compute(r)` identically.  In
+particular a used object equals a freshly constructed one that is given the final settings only. -/
+theorem history_fresh_equiv (ev : Eval α) (inv6 : M6 α → Box6 α) (inv4 : T4 α → T4 α)
+    (simple : State α → V3 α → α) (dq : Quad α) (d1 d2 : Desc) (ops1 ops2 : List (HOp α)) (r : V3 α)
+    (hM : (hrun ev inv6 inv4 simple dq (hinit d1 dq) ops1).1.st.cM = (hrun ev inv6 inv4 simple dq (hinit d2 dq) ops2).1.st.cM)
+    (hP : (hrun ev inv6 inv4 simple dq (hinit d1 dq) ops1).1.st.cP = (hrun ev inv6 inv4 simple dq (hinit d2 dq) ops2).1.st.cP)
+    (hR : (hrun ev inv6 inv4 simple dq (hinit d1 dq) ops1).1.st.rot = (hrun ev inv6 inv4 simple dq (hinit d2 dq) ops2).1.st.rot)
+    (hRP : (hrun ev inv6 inv4 simple dq (hinit d1 dq) ops1).1.st.rotP = (hrun ev inv6 inv4 simple dq (hinit d2 dq) ops2).1.st.rotP)
+    (hS : (hrun ev inv6 inv4 simple dq (hinit d1 dq) ops1).1.st.stress0 = (hrun ev inv6 inv4 simple dq (hinit d2 dq) ops2).1.st.stress0)
+    (hE : (hrun ev inv6 inv4 simple dq (hinit d1 dq) ops1).1.st.eig = (hrun ev inv6 inv4 simple dq (hinit d2 dq) ops2).1.st.eig)
+    (hC : (hrun ev inv6 inv4 simple dq (hinit d1 dq) ops1).1.st.constE = (hrun ev inv6 inv4 simple dq (hinit d2 dq) ops2).1.st.constE)
+    (hD : (hrun ev inv6 inv4 simple dq (hinit d1 dq) ops1).1.st.desc = (hrun ev inv6 inv4 simple dq (hinit d2 dq) ops2).1.st.desc)
+    (hQ : (hrun ev inv6 inv4 simple dq (hinit d1 dq) ops1).1.quad = (hrun ev inv6 inv4 simple dq (hinit d2 dq) ops2).1.quad)
+    (hset : any4 (hrun ev inv6 inv4 simple dq (hinit d1 dq) ops1).1.st.cM = true) :
+    computeOf ev inv4 simple (hrun ev inv6 inv4 simple dq (hinit d1 dq) ops1).1 r =
+      computeOf ev inv4 simple (hrun ev inv6 inv4 simple dq (hinit d2 dq) ops2).1 r := by
+  have c1 := hrun_coherent ev inv6 inv4 simple dq ops1 (hinit d1 dq) (init_coherent ev inv6 d1) hset
+  have c2 := hrun_coherent ev inv6 inv4 simple dq ops2 (hinit d2 dq) (init_coherent ev inv6 d2) (hM ▸ hset)
+  have hp : (hrun ev inv6 inv4 simple dq (hinit d1 dq) ops1).1.st.p = (hrun ev inv6 inv4 simple dq (hinit d2 dq) ops2).1.st.p := by
+    rw [c1, c2, hM, hP, hR, hRP, hS]
+  apply computeOf_congr _ _ _ _ _ _ _ hQ
+  generalize (hrun ev inv6 inv4 simple dq (hinit d1 dq) ops1).1.st = s1 at *
+  generalize (hrun ev inv6 inv4 simple dq (hinit d2 dq) ops2).1.st = s2 at *
+  cases s1; cases s2
+  simp only at hM hP hR hRP hS hE hC hD hp
+  subst hM hP hR hRP hS hE hC hD hp
+  rfl
+
+end history
+
+/-! ## a memo table for the kernel: sound iff every setter that changes a kernel input clears it -/
+section memo
+open KawinV.Elastic.Memo
+variable {σ ι ρ κ β : Type} [DecidableEq κ]
+
+/-- the setter either empties the table or leaves every input of the kernel as it was -/
+def SoundOp (inp : σ → ι) : MOp σ ρ → Prop
+  | .set f c => c = true ∨ ∀ s, inp (f s) = inp s
+  | .compute _ => True
+
+/-- every entry of the table is the kernel value of the settings in force, for every argument with that key -/
+def MemoOK (inp : σ → ι) (key : ι → ρ → κ) (kern : ι → ρ → β) (st : MState σ κ β) : Prop :=
+  ∀ k v, (k, v) ∈ st.memo → ∀ r, key (inp st.s) r = k → v = kern (inp st.s) r
+
+theorem lookup_mem (k : κ) (m : List (κ × β)) (v : β) (h : lookup k m = some v) : (k, v) ∈ m := by
+  induction m with
+  | nil => simp [lookup] at h
+  | cons e t ih =>
+    obtain ⟨k', v'⟩ := e
+    simp only [lookup] at h
+    split at h
+    · next hk => cases h; subst hk; exact List.mem_cons_self
+    · exact List.mem_cons_of_mem _ (ih h)
+
+theorem memoOK_empty (inp : σ → ι) (key : ι → ρ → κ) (kern : ι → ρ → β) (s : σ) :
+    MemoOK inp key kern ⟨s, []⟩ := by
+  intro k v h; simp at h
+
+/-- one call: the table stays correct, and the call answers exactly like an object without a table -/
+theorem mstep_sound (inp : σ → ι) (key : ι → ρ → κ) (kern : ι → ρ → β)
+    (hkey : ∀ i r r', key i r = key i r' → kern i r = kern i r')
+    (st : MState σ κ β) (hok : MemoOK inp key kern st) (op : MOp σ ρ) (hs : SoundOp inp op) :
+    MemoOK inp key kern (mstep inp key kern st op).1 ∧
+    (mstep inp key kern st op).2 = (pstep inp kern st.s op).2 ∧
+    (mstep inp key kern st op).1.s = (pstep inp kern st.s op).1 := by
+  cases op with
+  | set f c =>
+    refine ⟨?_, rfl, rfl⟩
+    simp only [mstep]
+    rcases hs with hc | hinp
+    · subst hc; exact memoOK_empty inp key kern _
+    · cases c
+      · intro k v hm r hk
+        simp only [Bool.false_eq_true, if_false] at hm
+        simp only [hinp] at hk ⊢
+        exact hok k v hm r hk
+      · exact memoOK_empty inp key kern _
+  | compute r =>
+    cases hl : lookup (key (inp st.s) r) st.memo with
+    | some v =>
+      have e : mstep inp key kern st (.compute r) = (st, some v) := by simp only [mstep, hl]
+      rw [e]
+      refine ⟨hok, ?_, rfl⟩
+      show some v = some (kern (inp st.s) r)
+      rw [hok _ v (lookup_mem _ _ _ hl) r rfl]
+    | none =>
+      have e : mstep inp key kern st (.compute r) =
+          ({ st with memo := (key (inp st.s) r, kern (inp st.s) r) :: st.memo }, some (kern (inp st.s) r)) := by
+        simp only [mstep, hl]
+      rw [e]
+      refine ⟨?_, rfl, rfl⟩
+      intro k v hm r' hk
+      rcases List.mem_cons.mp hm with he | hm'
+      · cases he
+        exact hkey _ _ _ hk.symm
+      · exact hok k v hm' r' hk
+
+/-- **memo_sound**: if every setter in the history that changes an input of the kernel empties the table
+(and equal keys mean equal kernel values), an object with a table answers every `compute` of the
+history exactly like an object without one: every result is the kernel of the settings in force. -/
+theorem memo_sound (inp : σ → ι) (key : ι → ρ → κ) (kern : ι → ρ → β)
+    (hkey : ∀ i r r', key i r = key i r' → kern i r = kern i r')
+    (ops : List (MOp σ ρ)) (hs : ∀ op ∈ ops, SoundOp inp op)
+    (st : MState σ κ β) (hok : MemoOK inp key kern st) :
+    (mrun inp key kern st ops).2 = (prun inp kern st.s ops).2 ∧
+    (mrun inp key kern st ops).1.s = (prun inp kern st.s ops).1 ∧
+    MemoOK inp key kern (mrun inp key kern st ops).1 := by
+  induction ops generalizing st with
+  | nil => exact ⟨rfl, rfl, hok⟩
+  | cons op ops ih =>
+    obtain ⟨h1, h2, h3⟩ := mstep_sound inp key kern hkey st hok op (hs op List.mem_cons_self)
+    obtain ⟨i1, i2, i3⟩ := ih (fun o ho => hs o (List.mem_cons_of_mem _ ho)) _ h1
+    simp only [mrun, prun]
+    rw [h2, i1, i2, h3]
+    exact ⟨rfl, rfl, i3⟩
+
+/-- the results without a table are the kernel of the settings in force at the call: the setters before
+a call matter only through the settings they leave -/
+theorem prun_compute (inp : σ → ι) (kern : ι → ρ → β) (s : σ) (r : ρ) :
+    (pstep inp kern s (.compute r) : σ × Option β).2 = some (kern (inp s) r) := rfl
+
+/-- **fresh-object equivalence with a sound table**: after any sound history the next `compute(r)` of the
+used object equals that of a fresh object (empty table) holding the final settings, namely the kernel
+of the final settings -/
+theorem memo_fresh_equiv (inp : σ → ι) (key : ι → ρ → κ) (kern : ι → ρ → β)
+    (hkey : ∀ i r r', key i r = key i r' → kern i r = kern i r')
+    (ops : List (MOp σ ρ)) (hs : ∀ op ∈ ops, SoundOp inp op) (s0 : σ) (r : ρ) :
+    (mstep inp key kern (mrun inp key kern ⟨s0, []⟩ ops).1 (.compute r)).2 =
+      (mstep inp key kern ⟨(prun inp kern s0 ops).1, []⟩ (.compute r)).2 ∧
+    (mstep inp key kern (mrun inp key kern ⟨s0, []⟩ ops).1 (.compute r)).2 =
+      some (kern (inp (prun inp kern s0 ops).1) r) := by
+  obtain ⟨_, h2, h3⟩ := memo_sound inp key kern hkey ops hs ⟨s0, []⟩ (memoOK_empty inp key kern s0)
+  obtain ⟨_, a2, _⟩ := mstep_sound inp key kern hkey _ h3 (.compute r) trivial
+  have e : (mstep inp key kern (mrun inp key kern ⟨s0, []⟩ ops).1 (.compute r)).2 =
+      some (kern (inp (prun inp kern s0 ops).1) r) := by
+    rw [a2]; simp only [pstep]; rw [h2]
+  refine ⟨?_, e⟩
+  rw [e]
+  simp [mstep, lookup]
+
+/-- **memo_stale_witness**: a table keyed by the radii alone, in an object whose stiffness setter does not
+empty it: `compute(1)`, stiffness 1 → 2, `compute(1)` answers 1·1 again, an object without a table 2·1
+(kernel = stiffness · radius). -/
+theorem memo_stale_witness :
+    ∃ (ops : List (MOp ℚ ℚ)),
+      (mrun (fun c : ℚ => c) (fun _ r => r) (fun c r => c * r) ⟨1, []⟩ ops).2 = [1, 1] ∧
+      (prun (fun c : ℚ => c) (fun c r => c * r) (1 : ℚ) ops).2 = [1, 2] := by
+  refine ⟨[.compute 1, .set (fun _ => 2) false, .compute 1], ?_, ?_⟩
+  · simp [mrun, mstep, lookup]
+  · simp [prun, pstep]
+
+/-- … and the hypothesis of `memo_sound` is exactly what this history lacks -/
+theorem memo_stale_witness_unsound :
+    ¬ SoundOp (ρ := ℚ) (fun c : ℚ => c) (.set (fun _ => 2) false) := by
+  intro h
+  rcases h with h | h
+  · exact absurd h (by decide)
+  · have := h 1; norm_num at this
+
+end memo
+
+/-! ### the Eshelby kernel `Dijkl` of the StrainEnergy model through a table -/
+section eshelbyMemo
+open KawinV.Elastic.Memo
+variable {α : Type} [Field α] [LinearOrder α] [IsStrictOrderedRing α] [Trans α]
+
+/-- what `Dijkl` reads from the object: the rotated matrix stiffness and the quadrature -/
+def kernelInput (h : HState α) : T4 α × Quad α := (h.st.p.cM4, h.quad)
+
+/-- the kernel -/
+def kernelD (i : T4 α × Quad α) (r : V3 α) : T4 α := Dijkl (ohmOf i.1) betaN i.2.nodes i.2.dA r
+
+/-- a call of the history machine as a call on a settings object with a table; `clears` says which setters
+empty the table -/
+def asMOp (ev : Eval α) (inv6 : M6 α → Box6 α) (inv4 : T4 α → T4 α) (simple : State α → V3 α → α)
+    (dq : Quad α) (clears : HOp α → Bool) : HOp α → MOp (HState α) (V3 α)
+  | .compute r => .compute r
+  | op => .set (fun h => (hstep ev inv6 inv4 simple dq h op).1) (clears op)
+
+/-- the eigenstrain setters change no input of the kernel: they need not empty a table of `Dijkl` -/
+theorem eig_setters_keep_kernel_input (ev : Eval α) (inv6 : M6 α → Box6 α) (inv4 : T4 α → T4 α)
+    (simple : State α → V3 α → α) (dq : Quad α) (h : HState α) (op : Op α)
+    (hop : (∃ e, op = .setEigScalar e) ∨ (∃ e, op = .setEigVec e) ∨ (∃ e, op = .setEigMat e)) :
+    kernelInput (hstep ev inv6 inv4 simple dq h (.setter op)).1 = kernelInput h := by
+  rcases hop with ⟨e, rfl⟩ | ⟨e, rfl⟩ | ⟨e, rfl⟩ <;> rfl
+
+/-- **a table of `Dijkl` inside StrainEnergy**: if every call other than the eigenstrain setters and
+`compute` empties the table (stiffness in every form, rotations, applied stress, shape, quadrature),
+then for any key with `key r = key r' → Dijkl r = Dijkl r'` every `Dijkl` handed to the energy is the
+kernel of the settings in force — whatever the history. -/
+theorem eshelby_memo_sound {κ : Type} [DecidableEq κ]
+    (ev : Eval α) (inv6 : M6 α → Box6 α) (inv4 : T4 α → T4 α)
+    (simple : State α → V3 α → α) (dq : Quad α) (key : T4 α × Quad α → V3 α → κ)
+    (hkey : ∀ i r r', key i r = key i r' → kernelD i r = kernelD i r')
+    (clears : HOp α → Bool)
+    (hclr : ∀ op : HOp α, clears op = true ∨ (∃ r, op = .compute r) ∨
+      (∃ e, op = .setter (.setEigScalar e)) ∨ (∃ e, op = .setter (.setEigVec e)) ∨ (∃ e, op = .setter (.setEigMat e)))
+    (ops : List (HOp α)) (h0 : HState α) :
+    (mrun kernelInput key kernelD ⟨h0, []⟩ (ops.map (asMOp ev inv6 inv4 simple dq clears))).2 =
+      (prun kernelInput kernelD h0 (ops.map (asMOp ev inv6 inv4 simple dq clears))).2 := by
+  refine (memo_sound kernelInput key kernelD hkey _ ?_ ⟨h0, []⟩ (memoOK_empty _ _ _ _)).1
+  intro mop hm
+  obtain ⟨op, _, rfl⟩ := List.mem_map.mp hm
+  rcases hclr op with hc | ⟨r, rfl⟩ | ⟨e, rfl⟩ | ⟨e, rfl⟩ | ⟨e, rfl⟩
+  · cases op with
+    | compute r => trivial
+    | setter o => exact Or.inl hc
+    | setQuad q => exact Or.inl hc
+  · trivial
+  · exact Or.inr fun h => eig_setters_keep_kernel_input ev inv6 inv4 simple dq h _ (Or.inl ⟨e, rfl⟩)
+  · exact Or.inr fun h => eig_setters_keep_kernel_input ev inv6 inv4 simple dq h _ (Or.inr (Or.inl ⟨e, rfl⟩))
+  · exact Or.inr fun h => eig_setters_keep_kernel_input ev inv6 inv4 simple dq h _ (Or.inr (Or.inr ⟨e, rfl⟩))
+
+end eshelbyMemo
+
 /-! ## `_beta`: the distance is homogeneous of degree one in the radii -/
 section beta
 variable {α : Type} [Field α] [LinearOrder α] [IsStrictOrderedRing α] [Trans α]
@@ -1009,6 +1260,45 @@ example : MinorSym (convert2To4 (elasticConstantToC (3 : ℚ) 1 1)) := convert2T
 example : (Eval.id : Eval ℚ).Lawful := ⟨fun _ => rfl, fun _ => rfl, fun _ => rfl⟩
 /-- a state with the matrix tensor set exists (so `final_params_depend_on_final_fields` is not vacuous) -/
 example : any4 (convert2To4 (elasticConstantToC (3 : ℚ) 1 1)) = true := by decide
+
+-- hypotheses of memo_sound / memo_fresh_equiv: a key that determines the kernel value, a sound history, a correct table
+example : ∀ (i : ℚ) (r r' : ℚ), (fun (_ : ℚ) (x : ℚ) => x) i r = (fun (_ : ℚ) (x : ℚ) => x) i r' →
+    (fun (c x : ℚ) => c * x) i r = (fun (c x : ℚ) => c * x) i r' := by
+  intro i r r' h; simp only at h; subst h; rfl
+example : ∀ op ∈ [Memo.MOp.compute (1 : ℚ), Memo.MOp.set (fun _ : ℚ => 2) true, Memo.MOp.compute 1],
+    SoundOp (fun c : ℚ => c) op := by
+  intro op h
+  simp only [List.mem_cons, List.not_mem_nil, or_false] at h
+  rcases h with rfl | rfl | rfl
+  · trivial
+  · exact Or.inl rfl
+  · trivial
+example : (Memo.mrun (fun c : ℚ => c) (fun _ r => r) (fun c r => c * r) ⟨1, []⟩
+    [.compute 1, .set (fun _ => 2) true, .compute 1]).2 = [1, 2] := by
+  simp [Memo.mrun, Memo.mstep, Memo.lookup]
+example : MemoOK (fun c : ℚ => c) (fun _ (r : ℚ) => r) (fun c r => c * r) ⟨2, [(3, 6)]⟩ := by
+  intro k v h r hk
+  simp only [List.mem_cons, Prod.mk.injEq, List.not_mem_nil, or_false] at h
+  obtain ⟨rfl, rfl⟩ := h
+  simp only at hk; subst hk; norm_num
+-- hypothesis `hclr` of eshelby_memo_sound: the policy "everything but compute and the eigenstrain setters clears"
+example : ∀ op : HOp ℚ, (match op with
+      | .compute _ => false
+      | .setter (.setEigScalar _) => false
+      | .setter (.setEigVec _) => false
+      | .setter (.setEigMat _) => false
+      | _ => true) = true ∨ (∃ r, op = .compute r) ∨
+      (∃ e, op = .setter (.setEigScalar e)) ∨ (∃ e, op = .setter (.setEigVec e)) ∨ (∃ e, op = .setter (.setEigMat e)) := by
+  intro op
+  cases op with
+  | compute r => exact Or.inr (Or.inl ⟨r, rfl⟩)
+  | setQuad q => exact Or.inl rfl
+  | setter o =>
+    cases o <;> first
+      | exact Or.inl rfl
+      | exact Or.inr (Or.inr (Or.inl ⟨_, rfl⟩))
+      | exact Or.inr (Or.inr (Or.inr (Or.inl ⟨_, rfl⟩)))
+      | exact Or.inr (Or.inr (Or.inr (Or.inr ⟨_, rfl⟩)))
 
 end nonvacuity
 
